@@ -1,11 +1,13 @@
 package keeper
 
 import (
+	"strings"
 	sdk "github.com/cosmos/cosmos-sdk/types"
+	"github.com/jackalLabs/canine-chain/v4/x/rns/types"
 	"github.com/jackalLabs/canine-chain/v4/zzverif"
 )
 
-// zzWorld builds the real rns Keeper over the model environment.
+// zzKeeper builds the real rns Keeper over the model environment.
 func zzKeeper(bank *zzverif.Bank) Keeper {
 	return Keeper{cdc: zzverif.Codec(), storeKey: zzverif.StoreKey("rns"), paramstore: zzverif.Subspace("rns"), bankKeeper: bank}
 }
@@ -13,4 +15,75 @@ func zzKeeper(bank *zzverif.Bank) Keeper {
 func zzCtx() (sdk.Context, int64) {
 	h := zzverif.NondetRange("height", 0, 1<<40)
 	return zzverif.Ctx(h, zzverif.NondetTime("blocktime"), 0), h
+}
+
+// zzTarget is an arbitrary (Skolem) name record observed before and after a message.
+type zzTarget struct {
+	n, tld string
+	pre    types.Names
+	found  bool
+	live   bool
+	owner  sdk.AccAddress
+}
+
+// zzObserve reads the record of an arbitrary lower-case (name, tld) through the real getter and
+// assumes the well-formedness every writer of Names records establishes (DESIGN Appendix D).
+func zzObserve(k Keeper, ctx sdk.Context, h int64) zzTarget {
+	t := zzTarget{n: zzverif.NondetString("target.name"), tld: zzverif.NondetString("target.tld")}
+	zzverif.Assume(zzverif.IsLowerASCII(t.n))
+	zzverif.Assume(zzverif.IsLowerASCII(t.tld))
+	t.pre, t.found = k.GetNames(ctx, t.n, t.tld)
+	if t.found {
+		zzverif.Assume(zzverif.And(t.pre.Name == t.n, t.pre.Tld == t.tld))
+		var err error
+		t.owner, err = sdk.AccAddressFromBech32(t.pre.Value)
+		zzverif.Assume(err == nil)
+		t.live = h <= t.pre.Expires
+	}
+	return t
+}
+
+// zzChanged: owner, data, expiry or record list of the target differ after the step.
+func zzChanged(k Keeper, ctx sdk.Context, t zzTarget) (bool, types.Names) {
+	post, pfound := k.GetNames(ctx, t.n, t.tld)
+	if pfound != t.found {
+		return true, post
+	}
+	if !pfound {
+		return false, post
+	}
+	ch := zzverif.Or(post.Value != t.pre.Value, post.Data != t.pre.Data)
+	ch = zzverif.Or(ch, post.Expires != t.pre.Expires)
+	ch = zzverif.Or(ch, post.Locked != t.pre.Locked)
+	ch = zzverif.Or(ch, len(post.Subdomains) != len(t.pre.Subdomains))
+	if !ch {
+		for i := range post.Subdomains {
+			a, b := post.Subdomains[i], t.pre.Subdomains[i]
+			ch = zzverif.Or(ch, zzverif.Or(a.Name != b.Name, zzverif.Or(a.Value != b.Value, a.Data != b.Data)))
+		}
+	}
+	return ch, post
+}
+
+func zzSameAccount(a string, b sdk.AccAddress) bool {
+	x, err := sdk.AccAddressFromBech32(a)
+	return err == nil && string(x) == string(b)
+}
+
+func zzverifLower(s string) string { return strings.ToLower(s) }
+
+// zzWF: well-formedness of open-world rns records (DESIGN Appendix D) - each clause is what every
+// writer of that record kind establishes.
+func zzWF() {
+	zzverif.WFKey("rns", "Names", "Names/value/", "$Name", ".", "$Tld", "/")
+	zzverif.WFAddr("Names", "Value")
+	// names pass ValidateBasic (`^[\\w-]+$`) or come from MakeName: no dot; the TLD is a supported one
+	// expiry heights are written as height + years*5484530 with bounded years: far below 2^62
+	zzverif.WF("Names", "nocontain:Name:.", "oneof:Tld:ibc,jkl", "lower:Name", "nonneg:Expires", "le:Expires:4611686018427387904")
+	zzverif.WFAddr("Forsale", "Owner")
+	zzverif.WFAddr("Bids", "Bidder")
+	zzverif.WF("Bids", "coin:Price")
+	zzverif.WFKey("rns", "Forsale", "Forsale/value/", "$Name", "/")
+	zzverif.WFKey("rns", "Bids", "Bids/value/", "$Index", "/")
+	zzverif.WFKey("rns", "Init", "Init/value/", "$Address", "/")
 }
